@@ -278,6 +278,9 @@ type limitWriter struct {
 	want        []byte // when set: the stream a fault-free run emitted; the bytes accepted must be its prefix
 	differs     bool   // an accepted byte was not the byte of want at that place
 	diffAt      int
+	// eager: the call whose bytes use up the budget exactly is accepted in full AND returns the error (a device that
+	// reports "full" together with the last bytes it took), instead of the error coming with the next call
+	eager bool
 }
 
 // check compares the n bytes of p being accepted at offset w.got with the expected stream.
@@ -308,6 +311,10 @@ func (w *limitWriter) Write(p []byte) (int, error) {
 	}
 	w.check(p, len(p))
 	w.got += len(p)
+	if w.eager && w.got == w.budget && len(p) > 0 {
+		w.failed = true
+		return len(p), errWriteFault
+	}
 	return len(p), nil
 }
 
